@@ -227,7 +227,7 @@ def handlers : List (String × (List String → String)) := [
     | _ => none),
   ("text_rstrip", h1 fun _ t _ => some (ansText (.ok t.rstrip))),
   ("text_rstrip_end", h1 fun v t a => match a with
-    | [n] => do pure (ansText (.ok (t.rstripEnd v (← decInt? n))))
+    | [n, chars] => do pure (ansText (.ok (Text.rstripEndW (decBool chars) cw v t (← decInt? n))))
     | _ => none),
   ("text_set_plain", h1 fun _ t a => match a with
     | [s] => do pure (ansText (.ok (t.setPlain (← decStr? s))))
